@@ -145,6 +145,9 @@ func genFunction(ld *Loader, specs *Specs, fn *ssa.Function, ct *Contract, opts 
 		if ct.HasAssigns {
 			tr.frameObligations(ct)
 		}
+		if len(ct.Preserves) > 0 && !ct.Trusted && !ct.External {
+			tr.preservesObligations(ct)
+		}
 	}
 	// vacuity guards
 	var rcs []Term
@@ -379,6 +382,48 @@ func (tr *Trans) frameObligations(ct *Contract) {
 	if g.havocAllSeen {
 		e.oblige(&Obl{Name: fmt.Sprintf("%s#frame:no-unknown-effects", tr.label), Kind: "frame", Props: unionProps(tr.propsOf(), ct.FrameProps), Cond: tTrue,
 			Goal: tFalse, Fn: tr.label, Pos: ct.Where})
+	}
+}
+
+// preservesObligations: a verified contract that says `preserves T` must leave every field of every T object that
+// existed at entry unchanged: the keys it wrote are compared with the entry state, and every havoc-all it performed
+// (a callee without assigns) must itself have kept T.
+func (tr *Trans) preservesObligations(ct *Contract) {
+	g, e := tr.g, tr.e
+	for _, pfx := range ct.Preserves {
+		var parts []Term
+		var vals []NamedTerm
+		for _, key := range sortedKeys(g.touchedAll) {
+			if !strings.HasPrefix(key, pfx) {
+				continue
+			}
+			sort := g.touchedAll[key]
+			pre := tr.pre.get(e, key, sort)
+			var r0, i0 Term
+			if strings.HasPrefix(string(sort), "(Array") {
+				r0 = e.fresh("keep.r", SInt)
+				i0 = e.fresh("keep.i", innerIndexSort(sort))
+				vals = append(vals, NamedTerm{"object", r0})
+			}
+			for _, r := range tr.rets {
+				f, ok := tr.frameFormula(key, sort, nil, pre, r.st.get(e, key, sort), r0, i0)
+				if ok {
+					parts = append(parts, implies(r.cond, f))
+				}
+			}
+		}
+		kept := true
+		for _, ep := range g.havocEpochs {
+			if !hasAnyPrefix(pfx, ep.keep) {
+				kept = false
+			}
+		}
+		goal := and(parts...)
+		if !kept {
+			goal = tFalse
+		}
+		e.oblige(&Obl{Name: fmt.Sprintf("%s#preserves:%s*", tr.label, pfx), Kind: "frame", Props: tr.propsOf(), Cond: tTrue,
+			Goal: goal, Fn: tr.label, Pos: ct.Where, Values: vals})
 	}
 }
 
